@@ -149,7 +149,7 @@ def check(ctx):
                "a transmission can start without waiting for the synchronisation pause (33 bit times after the last bus activity): " + w, f.loc(b))
     # The poll prologue (PHY still transmitting?  more RX bytes pending?) may live in private helpers or in poll_inner itself:
     # single-call-site helpers are folded into poll_inner and the rule is stated on the PHY queries, not on helper names.
-    poll = ctx.need_fn(CR, ST + "::poll_inner", expand=True)
+    poll = ctx.need_fn(CR, ST + "::poll_inner", expand=True, keep=_handlers(P) | T)
     if poll is not None:
         tb = TermBuilder(poll, P)
         marks = {}
@@ -168,7 +168,8 @@ def check(ctx):
         for b, c in handlers:
             S = g.at(b)
             ok_a, w = M.all_disj(S, is_ptx, {False})
-            ok_b, w2 = M.all_disj(S, is_est, {False})
+            bad_est = [fs for fs in S if _estimate(fs) is not False]
+            ok_b, w2 = not bad_est and bool(S), ("path class where the timing estimate is not known to be false: " + M.fmt_facts(bad_est[0])[:300]) if bad_est else ""
             ok2 = all(g.count_of(fs, "rxq") == {1} for fs in S) and bool(S)
             hn = (c.get("callee") or "").split("::")[-1]
             ctx.ob("b.sync-pause", "dispatch-after-tx-check|" + hn, ok_a and ok_b,
@@ -306,10 +307,44 @@ def check_rate_table(ctx, P):
     ctx.ob("d.constants", "baud-rate-table", len(table) >= 11 and not bad, "Baudrate::to_rate returns a rate that is not the variant's bit rate: %s (table %s)" % (bad, table), f.loc(0))
 
 
+def _handlers(P):
+    """the per-state handlers dispatched by poll_inner (never folded into it: the clauses are about their dispatch)"""
+    f = P.get(CR, ST + "::poll_inner")
+    out = set()
+    if f is not None:
+        for b, c in call_sites(f):
+            cal = c.get("callee") or ""
+            if cal.startswith(ST + "::") and cal.split("::")[-1].startswith(("do_", "handle_")):
+                out.add(cal)
+    return out
+
+
+def _is_ptx(k):
+    return strip_refs(k)[0] == "call" and M.callee_matches(strip_refs(k)[1], "phy::ProfibusPhy::poll_transmission")
+
+
+def _estimate(fs):
+    """value of the own timing estimate "this station is still transmitting" (`last_bus_activity` is Some(l) and now <= l) in a path
+    class: True / False / None (not determined) - whatever way the test is spelled (combinators, match, if let)"""
+    for k, vs in fs.items():
+        if k[0] == "call" and M.mentions(k, M.t_path("self.last_bus_activity")) and not M.mentions(k, lambda t: t[0] == "call" and "poll_transmission" in t[1]) \
+                and vs in (("in", frozenset([True])), ("in", frozenset([False]))):
+            return vs == ("in", frozenset([True]))
+    for k, vs in fs.items():
+        if k[0] == "discr" and path_str(strip_refs(k[1])) == "self.last_bus_activity" and vs == ("in", frozenset(["None"])):
+            return False
+    for k, vs in fs.items():
+        # l < now  <=>  !(now <= l)
+        if k[0] == "cmp" and k[1] == "lt" and M.mentions(k[2], M.t_path("self.last_bus_activity")) and path_str(strip_refs(k[3])) == "now" \
+                and vs in (("in", frozenset([True])), ("in", frozenset([False]))):
+            return vs == ("in", frozenset([False]))
+    return None
+
+
 def check_ongoing_tx(ctx, P):
     """b (ongoing transmission): while the PHY (or the own timing estimate) says that this station is still transmitting, the bus
     activity marker is refreshed; idle and supervision times are measured from the real end of the own transmission."""
-    f = ctx.need_fn(CR, ST + "::poll_inner", expand=True)
+    f = ctx.need_fn(CR, ST + "::poll_inner", expand=True, keep=_handlers(P))
     if f is None:
         return
     marks = {(b, None): "act" for b, c in call_sites(f, lambda c: callee_is(c, ST + "::mark_bus_activity"))}
@@ -320,7 +355,7 @@ def check_ongoing_tx(ctx, P):
     nsome = 0
     for rb in f.return_blocks:
         for fs in g.at(rb):
-            busy = any((is_ptx(k) or is_est(k)) and vs == ("in", frozenset([True])) for k, vs in fs.items())
+            busy = any(is_ptx(k) and vs == ("in", frozenset([True])) for k, vs in fs.items()) or _estimate(fs) is True
             if busy:
                 nsome += 1
                 if 0 in g.count_of(fs, "act"):
